@@ -33,6 +33,7 @@ type task struct {
 	spawnN    map[string]int
 	adopted   bool
 	blockedAt string // site of last pre-block yield (diagnostics)
+	starved   time.Duration // simulated time that passed while this task was parked (runnable, not chosen)
 	pcs       [16]uintptr // call stack of the park site (only with Sim.TrackFrames)
 	npc       int
 }
@@ -686,8 +687,29 @@ func (s *Sim) StepOnce(allowTime bool, maxQ int) bool {
 	}
 	q := ladder[s.T.Choose(maxQ)]
 	s.logStep('z', "", q.String())
+	before := s.stamp()
 	s.Sleep(q)
+	if el := s.stamp() - before; el > 0 {
+		// scheduler-induced delay: the tasks that were runnable all along did not get to run
+		for _, t := range R {
+			t.starved += el
+		}
+	}
 	return true
+}
+
+// Starved reports how much simulated time passed while the named task was runnable but
+// not chosen by the scheduler; latency oracles subtract it from what they measure.
+func (s *Sim) Starved(taskName string) time.Duration {
+	s.mu.Lock()
+	defer s.mu.Unlock()
+	var d time.Duration
+	for _, t := range s.all {
+		if t.name == taskName {
+			d += t.starved
+		}
+	}
+	return d
 }
 
 func btoi(b bool) int {
